@@ -15,7 +15,8 @@ PROPERTY = "C18"
 LEVEL = "model_checking"
 
 TRACE_FILES = ("ecdsa/ellipticcurve.py", "ecdsa/keys.py", "ecdsa/ecdsa.py",
-               "ecdsa/util.py", "ecdsa/curves.py", "ecdsa/der.py")
+               "ecdsa/util.py", "ecdsa/curves.py", "ecdsa/der.py",
+               "ecdsa/numbertheory.py", "ecdsa/rfc6979.py")
 
 
 def toy():
@@ -30,6 +31,9 @@ def cof_toy():
 
 STATELESS = ["load-offsubgroup-key", "load-valid-key", "randrange(19)",
              "randrange(2^40+15)", "sigdecode(19)", "sigdecode(2^40+15)"]
+
+
+_ENT_BYTE = {}
 
 
 class Env(object):
@@ -71,11 +75,32 @@ class Env(object):
                            zq, t.n)
         self.vk = VerifyingKey.from_public_point(Q, self.curve,
                                                  hashfunc=hashlib.sha1)
+        # a second verifying key on the same Curve object (same generator
+        # object) that denotes ANOTHER point: state kept on the generator or
+        # the curve per "last key used" is shared between the two
+        Q2a = self.tenv.mult[11]
+        zq2 = 4
+        Q2 = ec.PointJacobi(curve, Q2a[0] * zq2 * zq2 % p,
+                            Q2a[1] * zq2 ** 3 % p, zq2, t.n)
+        self.vk2 = VerifyingKey.from_public_point(Q2, self.curve,
+                                                  hashfunc=hashlib.sha1)
         self.msg = b"m"
         self.sig = None
+        # an entropy answer whose nonce gives a signature (r, s != 0)
+        self.ent_byte = _ENT_BYTE.get(repr(t.rec()))
+        from ecdsa.ecdsa import RSZeroError
+        for b in range(1, 256) if self.ent_byte is None else ():
+            try:
+                self.sk.sign(self.msg, entropy=lambda n, b=b: bytes([b]) * n)
+            except RSZeroError:
+                continue
+            self.ent_byte = bytes([b])
+            _ENT_BYTE[repr(t.rec())] = self.ent_byte
+            break
 
     def shared(self):
         objs = [self.G, self.P, self.H, self.H2, self.vk, self.vk.pubkey, self.vk.pubkey.point,
+                self.vk2, self.vk2.pubkey, self.vk2.pubkey.point,
                 self.sk, self.sk.privkey, self.sk.verifying_key,
                 self.sk.verifying_key.pubkey,
                 self.sk.verifying_key.pubkey.point, self.curve.generator]
@@ -84,7 +109,7 @@ class Env(object):
     def snapshot(self):
         out = []
         for o in (self.G, self.P, self.H, self.H2, self.curve.generator,
-                  self.vk.pubkey.point,
+                  self.vk.pubkey.point, self.vk2.pubkey.point,
                   self.sk.verifying_key.pubkey.point):
             d = vars(o)
             out.append((d.get("_PointJacobi__coords"),
@@ -108,18 +133,38 @@ def aff(ec, res):
     return res
 
 
+def ref_sig(e, d=7, k=3):
+    """signature of e.msg under private scalar d, made by the reference"""
+    tenv = e.tenv
+    dg = hashlib.sha1(e.msg).digest()
+    rs = None
+    while rs is None:                   # skip nonces giving r == 0 or s == 0
+        rs = tenv.ref_sign(tenv.e_of(dg), d, k)
+        k += 1
+    l = (tenv.n.bit_length() + 7) // 8
+    return rs[0].to_bytes(l, "big") + rs[1].to_bytes(l, "big")
+
+
 def ops_table():
     """name -> fn(env) -> observation"""
     def mk_sig(e):
-        from ecdsa import util
-        tenv = e.tenv
-        dg = hashlib.sha1(e.msg).digest()
-        rs = tenv.ref_sign(tenv.e_of(dg), 7, 3)
-        return util.sigencode_string(rs[0], rs[1], tenv.n)
+        return ref_sig(e)
 
     def unpickle_probe(e, obj):
         c = pickle.loads(pickle.dumps(obj))
         return (aff(e.ec, c), aff(e.ec, c * 3), aff(e.ec, c + c))
+
+    def key_copy(e):
+        from ecdsa.keys import VerifyingKey
+        return VerifyingKey.from_string(
+            e.vk.to_string("uncompressed"), e.curve, hashfunc=hashlib.sha1)
+
+    def key_probe(e, k):
+        return (bytes(k.to_string()), k.verify(mk_sig(e), e.msg))
+
+    def sk_probe(e, k):
+        return (bytes(k.to_string()), bytes(k.sign(e.msg, k=5)),
+                bytes(k.verifying_key.to_string()))
 
     def load_key(e, which):
         """key loading on a cofactor-4 toy curve: 'bad' = on-curve point of
@@ -190,12 +235,34 @@ def ops_table():
         "vk.to_string": lambda e: e.vk.to_string(),
         "sk.sign": lambda e: e.sk.sign_deterministic(e.msg),
         "sk.sign_k": lambda e: e.sk.sign(e.msg, k=5),
+        # key-level operations on the shared key objects
+        "vk.verify_digest": lambda e: e.vk.verify_digest(
+            mk_sig(e), hashlib.sha1(e.msg).digest(), allow_truncate=True),
+        "vk==vk'": lambda e: e.vk == key_copy(e),
+        "vk.to_der(compressed)": lambda e: bytes(e.vk.to_der("compressed")),
+        "pickle(vk)": lambda e: key_probe(e, pickle.loads(pickle.dumps(e.vk))),
+        "pickle(sk)": lambda e: sk_probe(e, pickle.loads(pickle.dumps(e.sk))),
+        "sk.to_der": lambda e: bytes(e.sk.to_der(format="pkcs8")),
+        "sk.sign_entropy": lambda e: e.sk.sign(
+            e.msg, entropy=lambda n: e.ent_byte * n),
+        "sk.vk.verify": lambda e: e.sk.verifying_key.verify(
+            e.sk.sign(e.msg, k=5), e.msg),
+        "vk2.verify": lambda e: e.vk2.verify(ref_sig(e, 11, 5), e.msg),
+        "sk.get_vk.to_string": lambda e: bytes(
+            e.sk.get_verifying_key().to_string("compressed")),
     }
 
 
 MUTATORS = ["G*5", "11*G", "H*4", "H2.scale", "H.to_affine", "P*3", "P.scale", "P.to_affine", "G.mul_add",
             "P.mul_add", "vk.precompute", "vk.precompute(lazy)", "vk.verify",
             "sk.sign", "pickle(G)", "pickle(P)", "P.x"]
+# key-level operations: explored (both modes) against each other and against
+# the operations that mutate the key's point
+KEYOPS = ["vk.verify_digest", "vk==vk'", "vk.to_der(compressed)",
+          "pickle(vk)", "pickle(sk)", "sk.to_der", "sk.sign_entropy",
+          "sk.vk.verify", "sk.get_vk.to_string", "vk2.verify"]
+KEY_PARTNERS = ["vk.precompute", "vk.verify", "sk.sign", "sk.sign_k",
+                "vk.to_string"]
 
 
 def probe(e):
@@ -214,6 +281,9 @@ def probe(e):
     out.append(aff(ec, e.P + e.G))
     out.append(e.P == ec.PointJacobi(e.P.curve(), e.Pa[0], e.Pa[1], 1))
     out.append(e.vk.to_string())
+    out.append(e.vk.verify(ref_sig(e), e.msg))
+    out.append(e.vk2.verify(ref_sig(e, 11, 5), e.msg))
+    out.append(e.sk.verifying_key.verify(ref_sig(e, 7, 9), e.msg))
     out.append(e.sk.verifying_key.to_string())
     c = pickle.loads(pickle.dumps(e.G))
     out.append((aff(ec, c), aff(ec, c * 7)))
@@ -302,7 +372,11 @@ def discover_fields(t):
 
 
 class Harness(object):
-    def __init__(self, t, names, fields, line_points, visit_bound=1):
+    def __init__(self, t, names, fields, line_points, visit_bound=1,
+                 wide=False):
+        # wide: numbertheory and rfc6979 are instrumented as well (their
+        # lines are switch points in mode B)
+        self.wide = wide
         self.visit_bound = visit_bound
         self.t = t
         self.names = names              # list of op-name lists per thread
@@ -313,10 +387,8 @@ class Harness(object):
         self.outcomes = set()
 
     def make_run(self, prefix, expect, on_point):
-        from ecdsa import ellipticcurve, keys, ecdsa as ecdsa_mod
-        from ecdsa import util as util_mod, curves as curves_mod, der as der_mod
-        S.instrument_modules([ellipticcurve, keys, ecdsa_mod, util_mod,
-                              curves_mod, der_mod])
+        S.instrument_modules(lib_modules() if self.wide
+                             else lib_modules()[:6])
         ops = ops_table()
         reset_module_state()
         e = Env(self.t)
@@ -396,7 +468,8 @@ class Harness(object):
 
 
 def run_combo(arg):
-    trec, names, fields, line_points, bound, max_exec = arg
+    trec, names, fields, line_points, bound, max_exec = arg[:6]
+    wide = bool(arg[6]) if len(arg) > 6 else False
     t = catalog.toy_from_case(trec)
     sh = Shard()
     label = " || ".join("; ".join(n) for n in names)
@@ -406,7 +479,7 @@ def run_combo(arg):
         sh.violation("seq", "sequential-orders-disagree",
                      dict(trec=trec, names=names), seq[0], seq[1])
         return sh
-    h = Harness(t, names, fields, line_points)
+    h = Harness(t, names, fields, line_points, wide=wide)
     h.make_run([], [], None)            # warm-up (opcode instrumentation)
     h.make_run([1], None, None)
     a = h.make_run([], [], None)
@@ -436,7 +509,7 @@ def run_combo(arg):
     if v is not None:
         sh.violation("sched", v[0],
                      dict(trec=trec, names=names, fields=fields,
-                          line_points=line_points,
+                          line_points=line_points, wide=wide,
                           schedule=getattr(h, "last_failed", None)), v[1], v[2])
     sh.sample(dict(threads=names, switch_points=st.max_points,
                    schedules=st.executions, states=st.states,
@@ -453,7 +526,8 @@ def replay(check, case):
             return dict(cls="sequential-orders-disagree", expected=seq[0],
                         observed=seq[1])
         return None
-    h = Harness(t, case["names"], case["fields"], case["line_points"])
+    h = Harness(t, case["names"], case["fields"], case["line_points"],
+                wide=case.get("wide", False))
     h.make_run([], [], None)
     h.make_run([1], None, None)
     if case.get("schedule") is not None:
@@ -486,7 +560,12 @@ def main(ctx):
              and a not in STATELESS and b not in STATELESS]
     if ctx.quick:
         pairs = [(a, b) for (a, b) in pairs
-                 if a in MUTATORS or b in MUTATORS]
+                 if (a in MUTATORS or b in MUTATORS)
+                 and a not in KEYOPS and b not in KEYOPS]
+        pairs += [(a, b) for a in KEYOPS for b in KEYOPS + KEY_PARTNERS
+                  if (b not in KEYOPS or a <= b)
+                  and (a == b or b in ("vk.precompute", "vk.verify")
+                       or "vk2.verify" in (a, b))]
     for (a, b) in pairs:
         jobs.append((run_combo, "modeA-pairs",
                      (trec, [[a], [b]], fields, False, None,
@@ -516,9 +595,24 @@ def main(ctx):
         m for m in MUTATORS if m not in ("11*G", "P.mul_add",
                                          "vk.precompute(lazy)")]
     lp = [(a, b) for a in mb for b in mb if a <= b]
+    kp = [(a, b) for a in KEYOPS for b in KEYOPS + KEY_PARTNERS
+          if b not in KEYOPS or a <= b]
+    if ctx.quick:
+        # every key-level operation against itself, against the operation
+        # that swaps the key's point and against a verification; the second
+        # key against every operation that uses the shared generator
+        kp = [(a, b) for (a, b) in kp
+              if a == b or b in ("vk.precompute", "vk.verify")
+              or "vk2.verify" in (a, b)]
+    lp += kp
+    # numbertheory / rfc6979 lines as switch points too: every pair in
+    # thorough, the signing and verifying operations among themselves in quick
+    wide_ops = ("sk.sign", "sk.sign_k", "sk.sign_entropy", "vk.verify",
+                "vk2.verify", "sk.vk.verify")
     for (a, b) in lp:
+        wide = (not ctx.quick) or (a in wide_ops and b in wide_ops)
         jobs.append((run_combo, "modeB-lines-bound1",
-                     (trec, [[a], [b]], fields, True, 1, 20000)))
+                     (trec, [[a], [b]], fields, True, 1, 20000, wide)))
     # module-level state behind stateless API calls (caches of validation
     # results, length memos, entropy buffers): concurrent calls, every line
     for (a, b) in [(a, b) for a in STATELESS for b in STATELESS if a <= b]:
